@@ -947,7 +947,7 @@ theorem C04_xml_id_parse (s : IdStore) (hw : s.Wf) (hb : ∀ x ∈ s.forest.allH
     obtain ⟨name, ks, hf, hm⟩ := idEntries_ofTree_find _ t e he
     have hmem := idEntries_mem_handles _ e he
     have hl : (s.parseInto t).1.lookup s.forest.next e.1 = some e.2 := by
-      rw [IdStore.lookup_parseInto_new]; exact lookup_of_mem_nodup _ (hfst ▸ hn) e he
+      rw [IdStore.lookup_parseInto_new]; exact fi_lookup_of_mem_nodup _ (hfst ▸ hn) e he
     have hlive : (s.parseInto t).1.forest.isLive e.2 = true :=
       Forest.isLive_of_mem_allHandles (by rw [IdStore.parseInto_allHandles]; exact List.mem_append_right _ hmem)
     refine ⟨e.2, name, ks, (IdStore.xmlIdNode_eq_some_iff _ _ _ _).mpr ⟨hl, hlive⟩, ?_, hm⟩
@@ -1973,7 +1973,7 @@ end XotModel.Props
 
   The restated headline theorems live where their vocabulary can be imported together with the
   forest lemma families: `C07_reachable_*` in Props/C07.lean, `C13_reachable_*` in Props/C13.lean (its
-  lemma family cannot be imported here: `XotModel.mem_of_lookup` is declared twice), `C09_reachable_*` in
+  lemma family cannot be imported here: `XotModel.fi_mem_of_lookup` is declared twice), `C09_reachable_*` in
   Props/C09.lean; Props/C01, C10, C15 cannot import the forest families (`XotModel.Frame`), so their
   hypotheses are derived HERE (`C04_reachable_hypotheses`, `C01_reachable_representable`) next to the
   existing `C10_forest_*` / `C15_forest_*` corollaries.  C16 (token / event streams) has no structural
